@@ -43,7 +43,7 @@ from easynetwork.servers.handlers import AsyncDatagramRequestHandler, AsyncStrea
 
 from vsim.backend import SimAsyncIOBackend, sim_sockets
 from vsim.harness import Peer
-from vsim.loop import run_async, wait_until
+from vsim.loop import loop_goes_idle, run_async, wait_until
 from vsim.runner import Harness
 from vsim.sock import Delivery, SimNet, SimSocket
 from vsim.tls import TLSPeer, make_context
@@ -177,9 +177,12 @@ class Plan:
         self.gap = 1  # U between writes
         self.fired = False
         self.fired_at_gens = 0
+        self.repeat = False  # UDP handle_pre: EVERY generator started for the address before window_end dies before its first yield
+        self.window_end = 0.0
+        self.fired_count = 0
 
     def describe(self) -> dict:
-        return {k: getattr(self, k) for k in ("name", "position", "exc", "n", "post_send", "thrown", "setup", "setup_errno", "setup_k", "accept_errnos", "start", "pre", "post", "gap", "fired")}
+        return {k: getattr(self, k) for k in ("name", "position", "exc", "n", "post_send", "thrown", "setup", "setup_errno", "setup_k", "accept_errnos", "repeat", "start", "pre", "post", "gap", "fired")}
 
 
 class ConnState:
@@ -216,6 +219,8 @@ def _draw_plan(world: World, name: str, positions: tuple[str, ...], setups: tupl
         p.thrown = "timeout" if world.choose("f.thrown", 2) else "parse"
         if p.position == "handle_nth":
             p.pre = max(p.pre, p.n)
+        if p.position == "handle_pre" and not setups:  # datagram handler
+            p.repeat = bool(world.choose("f.repeat", 2))
     return p
 
 
@@ -238,7 +243,9 @@ class _HandlerCommon:
 
     def _maybe(self, st: ConnState, pos: str, *, post_send: bool | None = None, thrown: BaseException | None = None) -> None:
         plan = st.plan
-        if plan is None or plan.fired or plan.position != pos:
+        if plan is None or plan.position != pos:
+            return
+        if plan.fired and not (plan.repeat and pos == "handle_pre" and self.world.now < plan.window_end and plan.fired_count < 100_000):
             return
         if pos == "handle_nth" and (st.nreq != plan.n or post_send != plan.post_send):
             return
@@ -248,9 +255,11 @@ class _HandlerCommon:
                 return
         plan.fired = True
         plan.fired_at_gens = st.gens
-        self.world.fault("handler_raises")
-        self.world.probe("raise@" + pos)
-        self.world.log("raise", plan.name, pos, plan.exc)
+        plan.fired_count += 1
+        if plan.fired_count <= 64:  # a runaway respawn loop (what the oracle is after) must not flood trace and counters
+            self.world.fault("handler_raises")
+            self.world.probe("raise@" + pos + ("+repeat" if plan.fired_count > 1 else ""))
+            self.world.log("raise", plan.name, pos, plan.exc)
         raise _make_exc(plan.exc, thrown, self.datagram)
 
 
@@ -317,12 +326,15 @@ class UDPHandler(_HandlerCommon, AsyncDatagramRequestHandler[str, str]):
 
     def __init__(self, world: World, reqs_per_gen: int):
         self._init(world, reqs_per_gen)
+        self.on_gen_start: Callable[[tuple, ConnState], None] | None = None  # oracle hook (generator-per-datagram accounting)
 
     async def handle(self, client: Any) -> Any:
         addr = client.extra(INETClientAttribute.remote_address)
         st = self._state((addr.host, addr.port))
         st.gens += 1
         gen = st.gens
+        if self.on_gen_start is not None:
+            self.on_gen_start((addr.host, addr.port), st)
         self._maybe(st, "handle_pre")
         plan = st.plan
         k = 0
@@ -865,14 +877,40 @@ def _h_udp(world: World) -> None:
 
     net.dgram_policy = policy
 
+    delivered: dict[str, int] = {n: 0 for n in addr_of}  # datagrams that reached the server socket, per client
+
     def send(name: str, data: bytes) -> None:
         srv_sock = net.bound[(HOST, PORT)]
-        if delay_mode == 0:
+
+        def deliver() -> None:
+            delivered[name] += 1
             net.inject_dgram(srv_sock, data, addr_of[name])
+
+        if delay_mode == 0:
+            deliver()
         else:
             d = 1 if delay_mode == 1 else world.choose("dgram_dly", 5)
-            world.after(d * U, lambda: net.inject_dgram(srv_sock, data, addr_of[name]))
+            world.after(d * U, deliver)
         world.log("dgram_in", name, len(data))
+
+    def on_gen_start(key: tuple, st: ConnState) -> None:
+        # Documented: a generator is started when a datagram is received, and a datagram whose generator ends before
+        # its first yield is DISCARDED.  So a client can never have had more generators than datagrams delivered: one
+        # more means a discarded datagram started another generator (replayed).
+        name = name_of[key]
+        if st.gens > delivered[name] and world.fatal is None:
+            plan = st.plan
+            if plan is not None:
+                plan.window_end = -1.0  # stop faulting so that the run ends
+            world.fatal = _viol(
+                family,
+                "one-generator-per-datagram",
+                f"{name}: generator #{st.gens} started although only {delivered[name]} datagram(s) from {key} reached the server "
+                f"(a datagram whose generator ended before its first yield has to be discarded, not replayed); t={world.now} plan={plan.describe() if plan else None}",
+                _site([plan] if plan else plans),
+            )
+
+    handler.on_gen_start = on_gen_start
 
     async def recv(name: str) -> bytes:
         while not inbox[name]:
@@ -933,6 +971,7 @@ def _h_udp(world: World) -> None:
             t += plan.gap * U
             at(t, proto.make_datagram(f"{plan.name}-{seq}"))
             seq += 1
+        plan.window_end = t + 5 * U  # repeat mode: every generator started for this address until then dies before its first yield
         return t + 5 * U
 
     async def amain() -> None:
@@ -981,6 +1020,9 @@ def _h_udp(world: World) -> None:
                     raise failures[0]
                 if server_task.done() or not srv.is_serving():
                     raise _viol(family, "server-still-running", f"serve_forever done={server_task.done()} is_serving={srv.is_serving()} after faults {[p.describe() for p in plans]}", _site(plans))
+                # ---- no datagram arrives any more: the server must go idle (no respawn loop fed by an old datagram)
+                if world.fatal is None and not await loop_goes_idle(world, loop):
+                    raise _viol(family, "idle-server-does-not-spin", f"more than 200 loop iterations during 50 idle virtual seconds after faults {[p.describe() for p in plans]}; generators per client={ {name_of[k]: st.gens for k, st in handler.states.items()} } delivered={delivered}", _site(plans))
             finally:
                 await srv.shutdown()
                 if not server_task.done():
